@@ -87,7 +87,12 @@ func (e *Engine) rhe(n, d *Term, hint string) *Term {
 		return K(rheConc(n.Val, d.Val))
 	}
 	if e.relational() {
+		key := "rhe:" + n.String() + "/" + d.String()
+		if q, ok := e.roundMemo[key]; ok {
+			return q
+		}
 		q := e.freshVar(hint + "_q")
+		e.roundMemo[key] = q
 		r := e.freshVar(hint + "_e")
 		e.pc = append(e.pc, Cmp("=", Mul(q, d), Add(n, r)))
 		e.pc = append(e.pc, Cmp("<=", Mul(KI(2), r), d))
@@ -113,7 +118,12 @@ func (e *Engine) trunc(n, d *Term, hint string) *Term {
 		return K(new(big.Int).Quo(n.Val, d.Val))
 	}
 	if e.relational() {
+		key := "trunc:" + n.String() + "/" + d.String()
+		if q, ok := e.roundMemo[key]; ok {
+			return q
+		}
 		q := e.freshVar(hint + "_q")
+		e.roundMemo[key] = q
 		r := e.freshVar(hint + "_r")
 		e.pc = append(e.pc, Cmp("=", n, Add(Mul(q, d), r)))
 		e.pc = append(e.pc, Ite(Cmp(">=", n, KI(0)),
@@ -135,7 +145,12 @@ func (e *Engine) ceil(n, d *Term, hint string) *Term {
 		return K(q)
 	}
 	if e.relational() {
+		key := "ceil:" + n.String() + "/" + d.String()
+		if q, ok := e.roundMemo[key]; ok {
+			return q
+		}
 		q := e.freshVar(hint + "_q")
+		e.roundMemo[key] = q
 		r := e.freshVar(hint + "_r")
 		e.pc = append(e.pc, Cmp("=", Mul(q, d), Add(n, r)))
 		e.pc = append(e.pc, Cmp(">=", r, KI(0)))
@@ -186,7 +201,12 @@ func (e *Engine) decQuo(a, b *Term) *Term {
 	}
 	exact := Op2("rhe", Op2("tdiv", Mul(a, kE36), b), kE)
 	if e.relational() {
+		key := "quo:" + a.String() + "/" + b.String()
+		if q, ok := e.roundMemo[key]; ok {
+			return q
+		}
 		q := e.freshVar("quo_q")
+		e.roundMemo[key] = q
 		r := e.freshVar("quo_e")
 		// q*b = a*1e18 + r ; 2|r|*1e18 <= b*(1e18+2)  (superset of the double rounding)
 		e.pc = append(e.pc, Cmp("=", Mul(q, b), Add(Mul(a, kE), r)))
